@@ -60,6 +60,9 @@ ty!(Qnum { n: u64, b: bool });
 ty!(Qvec { q: Vec<String> });
 ty!(Qnested { q: Inner });
 ty!(Qmixed { ok: String, bad: Vec<u8> });
+#[derive(Deserialize, Serialize, JsonSchema, Debug, Clone)]
+pub struct Wrapped(pub UnitEnum);
+ty!(Qwrapped { q: Option<Wrapped> });
 
 /// (key, fields: (name, scalar?))
 pub fn path_corpus() -> Vec<(&'static str, Vec<(&'static str, bool)>)> {
@@ -85,6 +88,7 @@ pub fn query_corpus() -> Vec<(&'static str, Vec<(&'static str, bool)>)> {
         ("qvec", vec![("q", false)]),
         ("qnested", vec![("q", false)]),
         ("qmixed", vec![("ok", true), ("bad", false)]),
+        ("qwrapped", vec![("q", true)]),
     ]
 }
 
@@ -151,6 +155,7 @@ fn make(case: &RegCase) -> Option<ApiEndpoint<C>> {
                 "qvec" => ApiEndpoint::new(op, h_pq::<$p, Qvec>, m, ct, &path, v),
                 "qnested" => ApiEndpoint::new(op, h_pq::<$p, Qnested>, m, ct, &path, v),
                 "qmixed" => ApiEndpoint::new(op, h_pq::<$p, Qmixed>, m, ct, &path, v),
+                "qwrapped" => ApiEndpoint::new(op, h_pq::<$p, Qwrapped>, m, ct, &path, v),
                 _ => return None,
             }
         };
@@ -168,6 +173,7 @@ fn make(case: &RegCase) -> Option<ApiEndpoint<C>> {
             "qvec" => ApiEndpoint::new(op, h_q::<Qvec>, m, ct, &path, v),
             "qnested" => ApiEndpoint::new(op, h_q::<Qnested>, m, ct, &path, v),
             "qmixed" => ApiEndpoint::new(op, h_q::<Qmixed>, m, ct, &path, v),
+            "qwrapped" => ApiEndpoint::new(op, h_q::<Qwrapped>, m, ct, &path, v),
             _ => return None,
         },
         "x" => with_q!(Px),
@@ -319,6 +325,31 @@ fn exotic_tag(e: &MEndpoint) -> Option<&'static str> {
     None
 }
 
+fn gen_pkey(rng: &mut Rng, natural: &str) -> String {
+    let natural = natural.to_string();
+    match rng.below(12) {
+        0 => {
+            // some other family member
+            let fam = ["", "x", "y", "xy", "w", "wx", "xyz", "z"];
+            rng.pick(&fam).to_string()
+        }
+        1 | 2 => {
+            // typed / non-scalar variants when the template has exactly the right names
+            let opts: Vec<&str> = match natural.as_str() {
+                "x" => vec!["x:u32", "x:enum", "x:newtype", "x:vec", "x:nested"],
+                "xy" => vec!["xy:nested"],
+                _ => vec![],
+            };
+            if opts.is_empty() {
+                natural.clone()
+            } else {
+                rng.pick(&opts).to_string()
+            }
+        }
+        _ => natural.clone(),
+    }
+}
+
 fn gen_case(rng: &mut Rng, accepted: &[RegCase], u: &[MVer], idx: usize, pol: &TagPolicy, exotic: bool) -> RegCase {
     let cfg = TableCfg {
         allow_shadow: true,
@@ -351,6 +382,16 @@ fn gen_case(rng: &mut Rng, accepted: &[RegCase], u: &[MVer], idx: usize, pol: &T
         3 if exotic => {
             ep.range = MRange::Until(MVer::min());
         }
+        4 | 5 => {
+            // trailing wildcard reusing the name of the (only) single-segment variable
+            let singles: Vec<String> = ep.segs.iter().filter_map(|s| if let TSeg::Var(v) = s { Some(v.clone()) } else { None }).collect();
+            if singles == ["x".to_string()] {
+                if ep.has_wild() {
+                    ep.segs.pop();
+                }
+                ep.segs.push(TSeg::Wild("x".into()));
+            }
+        }
         _ => {}
     }
     if !exotic && !ep.range.nonempty() {
@@ -361,26 +402,12 @@ fn gen_case(rng: &mut Rng, accepted: &[RegCase], u: &[MVer], idx: usize, pol: &T
     names.sort();
     names.dedup();
     let natural: String = names.concat();
-    let pkey = match rng.below(12) {
-        0 => {
-            // some other family member
-            let fam = ["", "x", "y", "xy", "w", "wx", "xyz", "z"];
-            rng.pick(&fam).to_string()
-        }
-        1 | 2 => {
-            // typed / non-scalar variants when the template has exactly the right names
-            let opts: Vec<&str> = match natural.as_str() {
-                "x" => vec!["x:u32", "x:enum", "x:newtype", "x:vec", "x:nested"],
-                "xy" => vec!["xy:nested"],
-                _ => vec![],
-            };
-            if opts.is_empty() {
-                natural.clone()
-            } else {
-                rng.pick(&opts).to_string()
-            }
-        }
-        _ => natural.clone(),
+    let dup_wild = ep.segs.iter().any(|s| matches!(s, TSeg::Wild(w) if w == "x"));
+    let pkey = if dup_wild {
+        // names {x}; the struct binds x to a list, as a wildcard would need
+        "x:vec".to_string()
+    } else {
+        gen_pkey(rng, &natural)
     };
     let qkey = if rng.chance(1, 2) {
         String::new()
